@@ -145,10 +145,10 @@ Fixpoint place_holder (width : Z) (rcur : list (list Z)) : list Z :=
   end.
 Definition f_maxwidth (s : list Z) (width : Z) : value :=
   let words := split_ws s in
+  if width <? 5 then VErr 1 else                    (* invalid width / placeholder too large for max width *)
   match words with
   | [] => VStr []                                   (* no chunks, no lines *)
   | _ =>
-    if width <? 5 then VErr 1 else                  (* placeholder too large for max width *)
     let chunks := intersperse [32] words in
     let '(cur, rest) := take_fit width 0 chunks in
     let '(cur, rest) :=
